@@ -3,7 +3,7 @@
    the manual, the reference BER decoder with More/Fail, machines modelled on
    ber_decode_primitive and ber_check_tags); tied to the C by checks/c05.py. *)
 From Coq Require Import ZArith List Bool.
-From A1 Require Import Base.Bytes Leaf.BerTL Leaf.BerTLProofs Rt.Types Rt.Comb Rt.Der Rt.DerProofs Rt.Resume Rt.ResumeProofs.
+From A1 Require Import Base.Bytes Leaf.BerTL Leaf.BerTLProofs Rt.Types Rt.Comb Rt.Der Rt.DerProofs Rt.Resume Rt.ResumeProofs Rt.Oer Rt.ResumeX Rt.ResumeXProofs.
 Import ListNotations.
 Local Open Scope Z_scope.
 
@@ -76,3 +76,65 @@ Theorem C05_chain_chunk_independent : forall tags input chunks,
   chunking_of input chunks -> feed0 (chain_step tags) chain_ctx0 chunks = chain_step tags chain_ctx0 input.
 Proof. exact chain_chunk_independent. Qed.
 Print Assumptions C05_chain_chunk_independent.
+
+(* ---- the XER string body (Rt/ResumeX.v entref_step = OCTET_STRING__convert_entrefs under
+   xer_decode_general: a complete reference becomes its character; a reference cut by the
+   end of the buffer is not consumed, RC_WMORE): coherent, hence the same string, code and
+   consumed count for every chunking *)
+Theorem C05_entref_coherent : coherent entref_step.
+Proof. exact entref_coherent. Qed.
+Print Assumptions C05_entref_coherent.
+
+Theorem C05_entref_chunk_independent : forall acc input chunks,
+  chunking_of input chunks -> feed0 entref_step acc chunks = entref_step acc input.
+Proof. exact entref_chunk_independent. Qed.
+Print Assumptions C05_entref_chunk_independent.
+
+(* the value: the text the XER encoder writes for a string s ("&amp;" "&lt;" "&gt;" for the
+   three characters it escapes), followed by the closing tag, is read back as s *)
+Theorem C05_entref_roundtrip : forall s rest,
+  entref_step [] (xer_escape s ++ 60 :: rest) = (OK, length (xer_escape s), s).
+Proof. exact entref_roundtrip. Qed.
+Print Assumptions C05_entref_roundtrip.
+
+(* ---- OER: skipping the open type of an extension addition the reader does not know
+   (oer_open_type_skip; full = true: determinant and contents must be in the window, the
+   repaired code and X.696; full = false: the code before the repair) *)
+Theorem C05_oer_skip_coherent : forall full, coherent (skip_step full).
+Proof. exact skip_coherent. Qed.
+Print Assumptions C05_oer_skip_coherent.
+
+Theorem C05_oer_skip_prefix_wmore : forall c p q,
+  zlen c <= rssize_max -> oer_open c = p ++ q -> q <> [] -> skip_step true tt p = (MORE, O, tt).
+Proof. exact skip_prefix_wmore. Qed.
+Print Assumptions C05_oer_skip_prefix_wmore.
+
+Theorem C05_oer_skip_whole : forall c rest, zlen c <= rssize_max ->
+  skip_step true tt (oer_open c ++ rest) = (OK, length (oer_open c), tt).
+Proof. exact skip_whole. Qed.
+Print Assumptions C05_oer_skip_whole.
+
+Theorem C05_oer_skip_prefix_wmore_c_refuted : exists c p q,
+  zlen c <= rssize_max /\ oer_open c = p ++ q /\ q <> [] /\ skip_step false tt p = (OK, 1%nat, tt).
+Proof. exact skip_prefix_wmore_c_refuted. Qed.
+Print Assumptions C05_oer_skip_prefix_wmore_c_refuted.
+
+(* the loop of SEQUENCE_decode_oer phase 4 over the unread rest of the presence bitmap *)
+Theorem C05_oer_skips_coherent : forall full, coherent (skips_step full).
+Proof. exact skips_coherent. Qed.
+Print Assumptions C05_oer_skips_coherent.
+
+Theorem C05_oer_skips_chunk_independent : forall full bits input chunks,
+  chunking_of input chunks -> feed0 (skips_step full) bits chunks = skips_step full bits input.
+Proof. exact skips_chunk_independent. Qed.
+Print Assumptions C05_oer_skips_chunk_independent.
+
+Theorem C05_oer_skips_whole : forall cs rest, adds_ok cs ->
+  skips_step true (adds_bits cs) (adds_enc cs ++ rest) = (OK, length (adds_enc cs), []).
+Proof. exact skips_whole. Qed.
+Print Assumptions C05_oer_skips_whole.
+
+Theorem C05_oer_skips_prefix_wmore : forall cs p q, adds_ok cs -> adds_enc cs = p ++ q -> q <> [] ->
+  exists k bits', skips_step true (adds_bits cs) p = (MORE, k, bits') /\ (k <= length p)%nat.
+Proof. exact skips_prefix_wmore. Qed.
+Print Assumptions C05_oer_skips_prefix_wmore.
